@@ -21,7 +21,8 @@ TECHNIQUE = 'runtime monitor: recorder-side evaluation of every condition/expres
 RULE = ('repeated hits (3-12 per case, varying locals) of a tracepoint placed in a function, a method, a nested '
         'function with closure cells or at module level; conditions boolean-valued or failing (incl. BaseException '
         'and error texts that read like "true"), fire_count 1/2/3/-1; watches, log fields and metric expressions over '
-        'locals, host-module globals, builtins, closure cells and agent-module names; non-trivial = a hit was rejected '
+        'locals, host-module globals, builtins, closure cells and agent-module names, some padded with blanks / tabs; a metric '
+        'riding on a conditional collecting tracepoint; non-trivial = a hit was rejected '
         'by its condition and a later one was due, or an expression named a non-local; distinct by canonical case')
 ASSUMPTIONS = ['conditions are boolean-valued or failing; expressions are side-effect free',
                'an error result may be carried either in the error field or as a result typed as the exception']
